@@ -11,6 +11,7 @@ import FBV.Drv.DF
 import FBV.Drv.ES
 import FBV.Drv.AD
 import FBV.Drv.RF
+import FBV.Drv.AAD
 open FBV FBV.Wire
 
 structure Tally where
@@ -41,6 +42,20 @@ def checkLine (oc : Bool) (line : String) : Option (List String × String) :=
     (FBV.DrvAD.checkTK oc pre impl std).map fun (v, nt) => (v, if nt then "tk_nontrivial" else "tk_trivial")
   | [("RF" :: pre), impl] =>
     (FBV.DrvRF.check oc pre impl).map fun (v, nt) => (v, if nt then "rf_nontrivial" else "rf_trivial")
+  | [("ACH" :: pre), impl, tok] =>
+    (FBV.DrvAAD.checkACH pre impl tok).map fun (v, nt) => (v, if nt then "ach_nontrivial" else "ach_trivial")
+  | [("ACB" :: pre), impl, tok] =>
+    (FBV.DrvAAD.checkACB pre impl tok).map fun (v, nt) => (v, if nt then "acb_nontrivial" else "acb_trivial")
+  | [("ATK" :: pre), impl, tok] =>
+    (FBV.DrvAAD.checkATK oc pre impl tok).map fun (v, nt) => (v, if nt then "atk_nontrivial" else "atk_trivial")
+  | [("AP" :: pre), op, res, post] =>
+    (FBV.DrvAAD.checkAP oc pre op res post).map fun (v, nt) => (v, if nt then "ap_nontrivial" else "ap_trivial")
+  | [("AC" :: pre), res, left, sink] =>
+    (FBV.DrvAAD.checkAC oc pre res left sink).map fun (v, nt) => (v, if nt then "ac_nontrivial" else "ac_trivial")
+  | [("ARF" :: pre), impl] =>
+    (FBV.DrvAAD.checkARF pre impl).map fun (v, nt) => (v, if nt then "arf_nontrivial" else "arf_trivial")
+  | [("ACO" :: pre), impl] =>
+    (FBV.DrvAAD.checkACO pre impl).map fun (v, nt) => (v, if nt then "aco_nontrivial" else "aco_trivial")
   | [("T0" :: pre), post] => (FBV.DrvT1.checkT0 pre post).map fun v => (v, "t0")
   | _ => none
 
